@@ -160,6 +160,117 @@ fn cover_mathfns() {
     kani::cover!(x.is_finite() && x != x.trunc());
 }
 
+// ---- math.clamp at a cheap number type: the complete closure body is
+// extracted with the argument fetches replaced (listed regex substitutions:
+// `s.get::<Numeric>(name!(min))?` -> the parameter, `s.get_map(name!(x),
+// check_numeric_compat_unit)?` -> the closure's own check applied to the
+// harness's value); inside this module `Numeric` and `Value` are stand-ins
+// (a double with a unit tag, compared by value when the units agree), so
+// the closure's comparisons, its compatibility check and the order in which
+// it applies the bounds are checked for ALL doubles.  What Numeric's real
+// comparison does with different units is under contract in numeric.rs. ----
+pub(crate) mod clampmock {
+    /// error stand-in (the real CallError drags the whole error type's drop
+    /// glue into CBMC)
+    pub struct CallError;
+    impl CallError {
+        pub fn msg<T>(_m: T) -> CallError {
+            CallError
+        }
+    }
+    use crate::sass::Name;
+    #[derive(Clone, Copy, PartialEq, Debug)]
+    pub struct Unit(pub u8);
+    impl Unit {
+        /// tags 0: no unit; 1, 2: one dimension; 3: another
+        pub fn is_compatible(&self, other: &Unit) -> bool {
+            (self.0 == 0 || other.0 == 0) || ((self.0 <= 2) == (other.0 <= 2))
+        }
+    }
+    #[derive(Clone, Copy, PartialEq, Debug)]
+    pub struct Numeric {
+        pub value: f64,
+        pub unit: Unit,
+    }
+    impl Numeric {
+        pub fn is_no_unit(&self) -> bool {
+            self.unit.0 == 0
+        }
+    }
+    impl PartialOrd for Numeric {
+        fn partial_cmp(&self, other: &Numeric) -> Option<core::cmp::Ordering> {
+            if self.unit.is_compatible(&other.unit) {
+                self.value.partial_cmp(&other.value)
+            } else {
+                None
+            }
+        }
+    }
+    #[derive(Clone, Copy, PartialEq, Debug)]
+    pub enum Value {
+        Numeric(Numeric, bool),
+        NotANumber,
+    }
+    impl TryFrom<Value> for Numeric {
+        type Error = String;
+        fn try_from(v: Value) -> Result<Numeric, String> {
+            match v {
+                Value::Numeric(n, _) => Ok(n),
+                Value::NotANumber => Err(String::new()),
+            }
+        }
+    }
+    fn diff_units_msg(_a: &Numeric, _b: &Numeric, _name: Name) -> String {
+        String::new()
+    }
+//@range file=rsass/src/sass/functions/math.rs fn=create_module after="def!(f, clamp(min, number, max), |s| {" until="\n    });"
+//@  header: pub fn snippet_clamp(min_arg: Numeric, number_arg: Value, max_arg: Value) -> Result<Value, CallError>
+//@  resubst: s\.get::<Numeric>\(name!\((\w+)\)\)\? => \1_arg.clone()
+//@  resubst: s\.get_map\(name!\((\w+)\), check_numeric_compat_unit\)\? => check_numeric_compat_unit(\1_arg.clone()).map_err(CallError::msg)?
+//@end
+}
+
+/// C29: clamp returns one of its arguments — the lower bound when the bounds
+/// are in the wrong order or the number is not above it, the upper bound
+/// when the number is not below it, else the number — for ALL doubles (same
+/// unit tag), and a number whose unit is incompatible with $min's, or that
+/// has a unit where $min has none, is an error.
+#[kani::proof]
+#[kani::stub(alloc::fmt::format, fmt_stub)]
+#[kani::unwind(5)]
+fn c29_clamp_all_doubles_same_unit() {
+    use clampmock::{Numeric as N, Unit as U, Value as V};
+    let (lo, x, hi): (f64, f64, f64) = (kani::any(), kani::any(), kani::any());
+    kani::assume(!lo.is_nan() && !x.is_nan() && !hi.is_nan());
+    let u: u8 = kani::any();
+    kani::assume(u <= 3);
+    let n = |v: f64| N { value: v, unit: U(u) };
+    let want = if lo >= hi || x <= lo { lo } else if x >= hi { hi } else { x };
+    match clampmock::snippet_clamp(n(lo), V::Numeric(n(x), true), V::Numeric(n(hi), true)) {
+        Ok(V::Numeric(r, _)) => {
+            assert!(r.value == want, "clamp: $min if $min >= $max or $number <= $min, $max if $number >= $max, else $number");
+            assert!(r.unit == U(u), "clamp keeps the unit");
+        }
+        _ => assert!(false, "clamp of three numbers with one unit is a number"),
+    }
+}
+#[kani::proof]
+#[kani::stub(alloc::fmt::format, fmt_stub)]
+#[kani::unwind(5)]
+fn c29_clamp_rejects_incompatible_or_mixed_unitless() {
+    use clampmock::{Numeric as N, Unit as U, Value as V};
+    let (ua, ub, uc): (u8, u8, u8) = (kani::any(), kani::any(), kani::any());
+    kani::assume(ua <= 3 && ub <= 3 && uc <= 3);
+    let r = clampmock::snippet_clamp(N { value: 1.0, unit: U(ua) }, V::Numeric(N { value: 2.0, unit: U(ub) }, true), V::Numeric(N { value: 3.0, unit: U(uc) }, true));
+    let ok = |a: u8, b: u8| (a == 0) == (b == 0) && ((a <= 2) == (b <= 2) || a == 0);
+    if ok(ua, ub) && ok(ua, uc) {
+        assert!(r.is_ok(), "compatible units (or no units at all) are accepted");
+    } else {
+        assert!(r.is_err(), "a unit incompatible with $min's, or units mixed with no units, is an error");
+    }
+    assert!(clampmock::snippet_clamp(N { value: 1.0, unit: U(1) }, V::NotANumber, V::Numeric(N { value: 3.0, unit: U(1) }, true)).is_err(), "a non-number is an error");
+}
+
 // ---- math.clamp: the complete closure body, extracted each run.  Listed
 // (regex) substitutions, argument fetches only: `s.get::<Numeric>(name!(min))?`
 // -> the Numeric parameter, `s.get_map(name!(x), check_numeric_compat_unit)?`
